@@ -27,9 +27,25 @@ def main():
         print("patch touches files outside src/watchdog:", files); sh("git checkout -- .", cwd=wt); return 1
     tests = "skipped"
     if not skip:
-        rc, o = sh("/venv/bin/python -m pytest -q -p no:cacheprovider --timeout=900 --continue-on-collection-errors tests 2>&1 | tail -4", cwd=wt)
+        rc, o = sh("/venv/bin/python -m pytest -q -rf -p no:cacheprovider --timeout=900 --continue-on-collection-errors tests 2>&1 | tail -40", cwd=wt)
         tests = o.strip().splitlines()[-1] if o.strip() else "?"
-        if " failed" in o or " error" in o.lower() and "passed" not in o:
+        failed = sorted({l.split()[1] for l in o.splitlines() if l.startswith("FAILED ")})
+        if failed:
+            # the machine is loaded: sleep-based tests flake; a change is rejected only if a test fails repeatedly
+            still = []
+            for t in failed:
+                ok = False
+                for _ in range(3):
+                    rc2, o2 = sh(f"/venv/bin/python -m pytest -q -p no:cacheprovider --timeout=900 '{t}' 2>&1 | tail -3", cwd=wt)
+                    if " passed" in o2 and " failed" not in o2:
+                        ok = True
+                        break
+                if not ok:
+                    still.append(t)
+            if still:
+                print("test-suite fails with the change:", still); sh("git checkout -- .", cwd=wt); return 1
+            tests += f" (flaky under load, passed on rerun: {failed})"
+        elif " failed" in o or (" error" in o.lower() and "passed" not in o):
             print("test-suite fails with the change:", o[-600:]); sh("git checkout -- .", cwd=wt); return 1
     rcs = [sh(f"/venv/bin/python {demo}", cwd=out, env=env, timeout=600)[0] for _ in range(2)]
     sh("git checkout -- .", cwd=wt)
